@@ -27,7 +27,7 @@ func init() {
 		var rig *e2eRig
 		var capViolation string
 		sc := &vrt.Scenario{
-			Opt: vrt.Options{HorizonNs: int64(200 * time.Second), Delay: c.P("delay", "1") == "1", Invariant: func() {
+			Opt: vrt.Options{HorizonNs: int64(200 * time.Second), Delay: c.P("delay", "1") == "1", MemVars: true, Invariant: func() {
 				if rig == nil {
 					return
 				}
